@@ -649,3 +649,145 @@ Proof.
     intros b' Hne Hdb. rewrite (datab_of _ _ _ _ _ _ Hp) in Hdb.
     rewrite !mem_upd_other by (rewrite ?mlen_upd by lia; first [lia | congruence]). reflexivity.
 Qed.
+
+(* ------------------------------------------------------------------ sbuf_str *)
+Lemma byte_of_zb (t : bytes) : bytes_lt256 t -> map byte_of (zb t) = t.
+Proof.
+  unfold zb. induction 1 as [|x t Hx Ht IH]; [reflexivity|]. cbn [map]. rewrite IH. f_equal.
+  unfold byte_of. rewrite Z.mod_small by lia. apply N2Z.id.
+Qed.
+Lemma firstn_cstr (t : bytes) : firstn (length (zb t)) (cstr_block (zb t)) = map VInt (zb t).
+Proof. unfold cstr_block. rewrite <- (map_length VInt (zb t)), firstn_app, Nat.sub_diag, firstn_all. cbn [firstn]. apply app_nil_r. Qed.
+
+Theorem tr_sbuf_str m p cs sz bs s o d fuel :
+  sbuf_rep m p cs sz -> bs <> p -> sbuf_datab m p <> Some bs -> str_at m bs s -> nonul s -> (o <= length s)%nat ->
+  Z.of_nat (length s) <= 2147483647 ->
+  let t := skipn o s in
+  sbuf_fits sz (Z.of_nat (length t) + 1) ->
+  let sb' := IoDefs.sbuf_mem (sb_model cs sz) t in
+  exists m', callf cprog fuel (S (S (S d))) F_sbuf_str [VPtr p 0; VPtr bs (Z.of_nat o)] m = Ok (VUndef, m') /\
+    sbuf_rep m' p (cs ++ zb t) (sb_sz sb') /\ sb' = sb_model (cs ++ zb t) (sb_sz sb') /\ sbuf_step m m' p.
+Proof.
+  intros R Hbs Hbd Hs Hnn Ho Hlen t Hfit sb'.
+  assert (Ht : bytes_lt256 t) by (apply nonul_lt256; apply Forall_skipn'; exact Hnn).
+  assert (Hlt : length (zb t) = length t) by (unfold zb; apply map_length).
+  assert (Hlt' : length t = (length s - o)%nat) by (unfold t; apply skipn_length).
+  destruct (tr_sbuf_mem m p cs sz bs (Z.of_nat o) (cstr_block (zb s)) (zb t) d fuel R Hbs Hbd Hs ltac:(lia)) as [m' [E [R' [M' S']]]].
+  - unfold cstr_block, zb. rewrite app_length, !map_length. fold t. cbn [length]. lia.
+  - rewrite Nat2Z.id, skipn_cstr_block by exact Ho. fold t. apply firstn_cstr.
+  - rewrite Hlt. exact Hfit.
+  - rewrite byte_of_zb in * by exact Ht. fold sb' in R', M'.
+    enter F_sbuf_str cf_sbuf_str. xs. rewrite (builtin_strlen m bs s o Hs Hnn Ho). xs.
+    rewrite wrap_I32_id by lia. rewrite Hlt, Hlt' in E. rewrite E. xs.
+    exists m'. split; [reflexivity|]. split; [exact R'|]. split; [exact M'|exact S'].
+Qed.
+
+(* ------------------------------------------------------------------ any sequence of sbuf_chr / sbuf_mem / sbuf_str calls *)
+Inductive sop := OpChr (c : Z) | OpMem (bs : nat) (os : Z) (src : list Z) | OpStr (bs : nat) (o : nat) (s : bytes).
+(* the C side: the translated functions called one after the other on the same struct *)
+Definition run_op (fuel d p : nat) (op : sop) (m : mem) : res (val * mem) :=
+  match op with
+  | OpChr c => callf cprog fuel d F_sbuf_chr [VPtr p 0; VInt c] m
+  | OpMem bs os src => callf cprog fuel d F_sbuf_mem [VPtr p 0; VPtr bs os; VInt (Z.of_nat (length src))] m
+  | OpStr bs o s => callf cprog fuel d F_sbuf_str [VPtr p 0; VPtr bs (Z.of_nat o)] m
+  end.
+Fixpoint run_ops (fuel d p : nat) (ops : list sop) (m : mem) : res mem :=
+  match ops with
+  | [] => Ok m
+  | op :: r => match run_op fuel d p op m with Ok (_, m1) => run_ops fuel d p r m1 | Err e => Err e end
+  end.
+(* the model side *)
+Definition op_cells (op : sop) : list Z :=
+  match op with OpChr c => [wrap I8 c] | OpMem _ _ src => src | OpStr _ o s => zb (skipn o s) end.
+Definition op_model (sb : IoDefs.sbuf) (op : sop) : IoDefs.sbuf :=
+  match op with
+  | OpChr c => IoDefs.sbuf_chr sb (byte_of c)
+  | OpMem _ _ src => IoDefs.sbuf_mem sb (map byte_of src)
+  | OpStr _ o s => IoDefs.sbuf_mem sb (skipn o s)
+  end.
+Definition op_need (op : sop) : Z :=
+  match op with OpChr _ => 1 | OpMem _ _ src => Z.of_nat (length src) + 1 | OpStr _ o s => Z.of_nat (length (skipn o s)) + 1 end.
+(* no int overflow in the size computations along the way (a condition on the model's sizes only) *)
+Fixpoint ops_fit (sb : IoDefs.sbuf) (ops : list sop) : Prop :=
+  match ops with [] => True | op :: r => sbuf_fits (sb_sz sb) (op_need op) /\ ops_fit (op_model sb op) r end.
+(* the source of an operation: a block of the memory the sequence starts from, other than the struct and its data block *)
+Definition op_src_ok (m0 : mem) (p : nat) (op : sop) : Prop :=
+  match op with
+  | OpChr _ => True
+  | OpMem bs os src => bs <> p /\ sbuf_datab m0 p <> Some bs /\ 0 <= os /\
+      exists sblk, nth_error m0 bs = Some sblk /\ os + Z.of_nat (length src) <= Z.of_nat (length sblk) /\
+                   firstn (length src) (skipn (Z.to_nat os) sblk) = map VInt src
+  | OpStr bs o s => bs <> p /\ sbuf_datab m0 p <> Some bs /\ str_at m0 bs s /\ nonul s /\ (o <= length s)%nat /\
+      Z.of_nat (length s) <= 2147483647
+  end.
+
+Lemma step_src m0 m p bs : sbuf_step m0 m p -> (bs < length m0)%nat -> bs <> p -> sbuf_datab m0 p <> Some bs ->
+  nth_error m bs = nth_error m0 bs /\ sbuf_datab m p <> Some bs.
+Proof.
+  intros [L [D F]] Hl Hp Hd. split; [apply F; assumption|].
+  destruct D as [D|[b [D Hb]]]; rewrite D; [exact Hd|]. intro E. injection E as E. lia.
+Qed.
+
+Lemma tr_sbuf_ops_gen m0 p ops d fuel : forall m cs sz,
+  sbuf_step m0 m p -> sbuf_rep m p cs sz -> Forall (op_src_ok m0 p) ops -> ops_fit (sb_model cs sz) ops ->
+  let sbk := fold_left op_model ops (sb_model cs sz) in
+  let csk := cs ++ flat_map op_cells ops in
+  exists m', run_ops fuel (S (S (S d))) p ops m = Ok m' /\
+    sbuf_rep m' p csk (sb_sz sbk) /\ sbk = sb_model csk (sb_sz sbk) /\ sbuf_step m m' p.
+Proof.
+  induction ops as [|op ops IH]; intros m cs sz S0 R Hsrc Hfit sbk csk.
+  - exists m. unfold sbk, csk. cbn [fold_left flat_map run_ops sb_model sb_sz]. rewrite app_nil_r.
+    split; [reflexivity|]. split; [exact R|]. split; [reflexivity|apply sbuf_step_refl].
+  - inversion Hsrc as [|? ? Hop Hrest]; subst. destruct Hfit as [Hf1 Hfr]. cbn [sb_sz sb_model] in Hf1.
+    assert (Step : exists m1, run_op fuel (S (S (S d))) p op m = Ok (VUndef, m1) /\
+               sbuf_rep m1 p (cs ++ op_cells op) (sb_sz (op_model (sb_model cs sz) op)) /\
+               op_model (sb_model cs sz) op = sb_model (cs ++ op_cells op) (sb_sz (op_model (sb_model cs sz) op)) /\
+               sbuf_step m m1 p).
+    { destruct op as [c|bs os src|bs o s]; cbn [run_op op_cells op_model op_need] in *.
+      - apply (tr_sbuf_chr m p cs sz c (S d) fuel R Hf1).
+      - destruct Hop as [Hbs [Hbd [Hos [sblk [Hs [Hsl Hsrc1]]]]]].
+        assert (Hl : (bs < length m0)%nat) by (apply nth_error_Some; congruence).
+        destruct (step_src m0 m p bs S0 Hl Hbs Hbd) as [E1 E2].
+        apply (tr_sbuf_mem m p cs sz bs os sblk src (S d) fuel R Hbs E2); try assumption. rewrite E1. exact Hs.
+      - destruct Hop as [Hbs [Hbd [Hs [Hnn [Ho Hlen]]]]].
+        assert (Hl : (bs < length m0)%nat) by (apply nth_error_Some; unfold str_at in Hs; congruence).
+        destruct (step_src m0 m p bs S0 Hl Hbs Hbd) as [E1 E2].
+        apply (tr_sbuf_str m p cs sz bs s o d fuel R Hbs E2); try assumption. unfold str_at. rewrite E1. exact Hs. }
+    destruct Step as [m1 [E1 [R1 [M1 S1]]]].
+    rewrite M1 in Hfr.
+    destruct (IH m1 _ _ (sbuf_step_trans _ _ _ _ S0 S1) R1 Hrest Hfr) as [m' [E' [R' [M' S']]]].
+    exists m'. cbn [run_ops]. rewrite E1. split; [exact E'|].
+    unfold sbk, csk. cbn [fold_left flat_map]. rewrite M1, app_assoc.
+    split; [exact R'|]. split; [exact M'|]. apply (sbuf_step_trans _ m1); assumption.
+Qed.
+
+Theorem tr_sbuf_ops m p cs sz ops d fuel :
+  sbuf_rep m p cs sz -> Forall (op_src_ok m p) ops -> ops_fit (sb_model cs sz) ops ->
+  let sbk := fold_left op_model ops (sb_model cs sz) in
+  let csk := cs ++ flat_map op_cells ops in
+  exists m', run_ops fuel (S (S (S d))) p ops m = Ok m' /\
+    sbuf_rep m' p csk (sb_sz sbk) /\ sbk = sb_model csk (sb_sz sbk) /\ sbuf_step m m' p.
+Proof. intros R Hs Hf. apply (tr_sbuf_ops_gen m p ops d fuel m cs sz (sbuf_step_refl m p) R Hs Hf). Qed.
+
+(* C01_capacity on the C text: after ANY sequence of sbuf_chr / sbuf_mem / sbuf_str calls, sbuf_buf's store of the terminator
+   is inside the allocation: the call returns Ok (a store outside its block is Err EOob), the data block holds the cells
+   followed by the terminator, and the block is exactly as large as the model's capacity says *)
+Theorem tr_sbuf_terminator_inside m p cs sz ops d fuel :
+  sbuf_rep m p cs sz -> Forall (op_src_ok m p) ops -> ops_fit (sb_model cs sz) ops ->
+  let sbk := IoDefs.sbuf_buf (fold_left op_model ops (sb_model cs sz)) in
+  let csk := cs ++ flat_map op_cells ops in
+  exists m1 b m2 rest, run_ops fuel (S (S (S d))) p ops m = Ok m1 /\
+    callf cprog fuel (S (S d)) F_sbuf_buf [VPtr p 0] m1 = Ok (VPtr b 0, m2) /\
+    nth_error m2 b = Some (map VInt csk ++ VInt 0 :: rest) /\
+    Z.of_nat (length (map VInt csk ++ VInt 0 :: rest)) = sb_sz sbk /\ sb_n sbk = Z.of_nat (length csk) /\ 0 <= sb_n sbk < sb_sz sbk /\
+    sbuf_rep m2 p csk (sb_sz sbk) /\ sbuf_step m m2 p.
+Proof.
+  intros R Hs Hf sbk csk.
+  destruct (tr_sbuf_ops m p cs sz ops d fuel R Hs Hf) as [m1 [E1 [R1 [M1 S1]]]]. fold csk in R1, M1.
+  destruct (tr_sbuf_buf m1 p csk _ d fuel R1) as [b [m2 [rest [E2 [R2 [D2 [Hd2 [Hl2 [Hn2 [S2 _]]]]]]]]]].
+  rewrite <- M1 in *. fold sbk in R2, Hl2, Hn2.
+  exists m1, b, m2, rest. split; [exact E1|]. split; [exact E2|]. split; [exact Hd2|].
+  split; [rewrite app_length, map_length; cbn [length]; exact Hl2|].
+  assert (Hn : sb_n sbk = Z.of_nat (length csk)) by (unfold sbk; rewrite M1, buf_sz_model; reflexivity).
+  split; [exact Hn|]. split; [lia|]. split; [exact R2|]. apply (sbuf_step_trans _ m1); assumption.
+Qed.
